@@ -5,6 +5,7 @@ usage: seedmatrix.py <seed.log>   (lines: DETECTED|MISSED seeded/<PROP>/<n>/ (..
 """
 import json, sys, re, os
 WHY_MISSED = {
+ "C13/r4-1": "inside mergeInto (trusted): a Merge entry resolving to an empty, non-nil value; the bounded stand-in uses an operator that never yields an empty value",
  "C07/r4-2": "iterator.SeekTo has only the 'releases nothing' clause; that the REPLACED lower-level iterator is closed (and so stops pinning a footer and its file) is not stated - startIterator may itself close iterators, so a count of Close calls is not a function of the arguments",
  "C09/r4-3": "batch.doSort is a trusted contract (sort.Sort); its recursion into nested child batches is assumed - a tree-deep 'sorted' predicate over batches whose kvs arrays may alias is not provable in the encoding",
  "C15/r4-1": "mergerMain (the merger's error path) is not under contract",
